@@ -517,7 +517,7 @@ struct Out1 {
 fn exercise(name: &str, spec: &ProgSpec, rng: &mut Rng, n_tuples: usize, history: &[String]) -> Out1 {
     let mut out = Out1 { evaluations: 0, children: 0, distinct: vec![], counters: vec![], violations: vec![], sample: None };
     let source = match spec.source() { Some(s) => s, None => return out };
-    if work::builds(spec) && work::qualify_scaled(name, spec, 150_000).is_none() {
+    if !name.starts_with("big:") && work::builds(spec) && work::qualify_scaled(name, spec, 150_000).is_none() {
         out.counters.push(("programs_skipped_step_budget", 1));
         return out;
     }
@@ -542,7 +542,9 @@ fn exercise(name: &str, spec: &ProgSpec, rng: &mut Rng, n_tuples: usize, history
         }
         out.counters.push(("in_process_history_runs", 1));
     }
-    let base_t = Tuple::baseline();
+    let release_only = name.starts_with("big:");
+    let mut base_t = Tuple::baseline();
+    if release_only { base_t.profile = Profile::Release; }
     let base = observe(&source, &base_t);
     out.children += base.children;
     out.evaluations += 1;
@@ -567,6 +569,10 @@ fn exercise(name: &str, spec: &ProgSpec, rng: &mut Rng, n_tuples: usize, history
         let mut t = base_t.clone(); t.env = vec![("RUST_MIN_STACK".into(), "67108864".into())]; t.profile = Profile::Release; tuples.push(t);
     }
     while tuples.len() < n_tuples { tuples.push(Tuple::random(rng)); }
+    if release_only {
+        // the debug build needs more CPU time for this program than the watchdog grants: eight hash seeds in the release build
+        tuples = (0..8).map(|_| { let mut t = base_t.clone(); t.hash_seed = rng.next_u64(); t }).collect();
+    }
     let mut seeds: Vec<u64> = vec![base_t.hash_seed];
     let (mut aslr_on, mut back, mut clock_reads, mut rel, mut stdin_n) = (0u64, 0u64, 0u64, 0u64, 0u64);
     let mut span_total: u128 = 0;
@@ -698,6 +704,13 @@ pub fn run(seed: u64, tier: &str, ev: &mut Evidence) -> Vec<Violation> {
     for (name, src) in limit_templates() {
         specs.push((format!("limit:{}", name), ProgSpec::Source(src)));
     }
+    if tier == "thorough" {
+        // tens of thousands of distinct string constants: whatever index an implementation keeps over the pool (hashes, fingerprints,
+        // tries) is exercised where collisions become likely; compiling it takes seconds even in the release build, so: thorough only
+        let src: String = (0..60_000).map(|i| format!("print(\"s{}\\n\")", i)).collect::<Vec<_>>().join(";\n");
+        specs.push(("big:60000_distinct_string_constants".into(), ProgSpec::Source(src)));
+    }
+    if let Ok(only) = std::env::var("VERIF_DEBUG_C11_ONLY") { specs.retain(|(n, _)| n.starts_with(&only)); }
     let outs: Vec<Out1> = par_map(specs.len(), |i| {
         let mut rng = Rng::for_case(seed, "C11", ENGINE, i as u64);
         // history: up to three other programs of the batch, chosen by the case seed
